@@ -101,7 +101,7 @@ func TestC19Binary(t *testing.T) {
 		}
 		conn, _, err := websocket.DefaultDialer.Dial("ws://"+target+":"+port+"/", hdr)
 		if err != nil {
-			rt.Fatalf("[setup failed] dial %s: %v", target, err)
+			rt.Fatalf("%s (target %s)", p.dialFailure(err), target)
 		}
 		codec := &wsTestCodec{conn: conn}
 		svc := &HostSvc{}
